@@ -133,6 +133,8 @@ typedef struct obs_item {
     const char *name;
     uint64_t v;    /* scalar value, or byte count */
     uint8_t *copy; /* bytes (NULL for scalars) */
+    uint8_t unw;   /* scalar of a not-documented output field that still holds
+                      its pre-fill: the library did not write it (ob_u_opt) */
 } obs_item;
 
 typedef struct obs {
@@ -154,7 +156,38 @@ static void ob_u(obs *o, const char *name, uint64_t v) {
     o->it[o->k].name = name;
     o->it[o->k].v = v;
     o->it[o->k].copy = NULL;
+    o->it[o->k].unw = 0;
     o->k++;
+}
+
+/* A field the API does not document as an output (what a DECODER leaves in
+ * the caller's PFOR metadata).  If the library writes it, the value must be a
+ * function of the arguments like any other result; if it leaves the field
+ * alone in both executions that is fine too.  Such objects are pre-filled
+ * with DECPAT(x), a pattern different from the stack paint word, so "left
+ * alone" cannot be confused with "copied from stale stack memory". */
+static void ob_u_opt(obs *o, const char *name, uint64_t v, int unwritten) {
+    if (!o) {
+        return;
+    }
+    unsigned k = o->k;
+    ob_u(o, name, v);
+    if (o->k > k) {
+        o->it[k].unw = unwritten ? 1 : 0;
+    }
+}
+
+static int still_prefilled(const void *obj, size_t off, size_t len,
+                           uint64_t word) {
+    uint8_t w[8];
+    memcpy(w, &word, 8);
+    const uint8_t *b = (const uint8_t *)obj;
+    for (size_t i = 0; i < len; i++) {
+        if (b[off + i] != w[(off + i) & 7]) {
+            return 0;
+        }
+    }
+    return 1;
 }
 
 static void ob_b(obs *o, const char *name, const void *p, size_t n) {
@@ -179,6 +212,7 @@ static void ob_b(obs *o, const char *name, const void *p, size_t n) {
     o->it[o->k].name = name;
     o->it[o->k].v = n;
     o->it[o->k].copy = c;
+    o->it[o->k].unw = 0;
     o->k++;
 }
 
@@ -242,6 +276,13 @@ static uint64_t *mkvals(const ex *x, size_t n) {
 }
 
 #define PREFILL(x, obj) fill_pat(&(obj), sizeof(obj), (x)->word)
+/* pre-fill of objects with fields that are not documented outputs (ob_u_opt) */
+#define DECPAT(x) ((x)->word ^ 0xD6E8FEB86659FD93ULL)
+#define PREFILL_DEC(x, obj) fill_pat(&(obj), sizeof(obj), DECPAT(x))
+#define OB_OPT(x, name, obj, T, field)                                         \
+    ob_u_opt((x)->o, name, (uint64_t)(obj).field,                              \
+             still_prefilled(&(obj), offsetof(T, field), sizeof((obj).field),  \
+                             DECPAT(x)))
 
 /* ------------------------------------------------------------------ target */
 enum kind {
@@ -521,6 +562,19 @@ static void parse_args(vf_rd *r, tgt *t, unsigned kind, int history) {
         }                                                                      \
     } while (0)
 
+/* the same fields where they are not documented outputs: a decoder's view of
+ * the caller's PFOR metadata.  `obj` was pre-filled with PREFILL_DEC and
+ * `base`/`T` say where the varintPFORMeta lies inside it. */
+#define OBS_PFORMETA_DEC(x, pfx, obj, T, path)                                 \
+    do {                                                                       \
+        OB_OPT(x, pfx ".min", obj, T, path min);                               \
+        OB_OPT(x, pfx ".exceptionMarker", obj, T, path exceptionMarker);       \
+        OB_OPT(x, pfx ".width", obj, T, path width);                           \
+        OB_OPT(x, pfx ".count", obj, T, path count);                           \
+        OB_OPT(x, pfx ".exceptionCount", obj, T, path exceptionCount);         \
+        OB_OPT(x, pfx ".threshold", obj, T, path threshold);                   \
+    } while (0)
+
 static void t_for(ex *x, const tgt *t) {
     const size_t n = t->n;
     const int batch = (t->p1 >> 1) & 1;
@@ -597,13 +651,13 @@ static void t_pfor(ex *x, const tgt *t) {
     /* decode with metadata that asks the decoder to read the header */
     uint64_t *out = mkvals(x, n);
     varintPFORMeta dm;
-    PREFILL(x, dm);
+    PREFILL_DEC(x, dm);
     dm.width = (varintWidth)0;
     PAINT(x);
     size_t c = varintPFORDecode(dst, out, &dm);
     ob_u(x->o, "pfor.dec.count", c);
     ob_b(x->o, "pfor.dec.values", out, (c < n ? c : n) * sizeof(uint64_t));
-    OBS_PFORMETA(x, "pfor.dec.meta", dm, 0);
+    OBS_PFORMETA_DEC(x, "pfor.dec.meta", dm, varintPFORMeta, );
 
     /* decode with the encoder's metadata */
     varintPFORMeta em = m;
@@ -1027,7 +1081,7 @@ static void t_adaptive(ex *x, const tgt *t) {
     }
     uint64_t *out = mkvals(x, n);
     varintAdaptiveMeta dm;
-    PREFILL(x, dm);
+    PREFILL_DEC(x, dm);
     PAINT(x);
     size_t c = varintAdaptiveDecode(dst, out, n, &dm);
     ob_u(x->o, "adaptive.dec.count", c);
@@ -1035,7 +1089,9 @@ static void t_adaptive(ex *x, const tgt *t) {
     ob_u(x->o, "adaptive.dec.meta.encodingType", (uint64_t)dm.encodingType);
     ob_u(x->o, "adaptive.dec.meta.originalCount", dm.originalCount);
     if (dm.encodingType == VARINT_ADAPTIVE_PFOR) {
-        OBS_PFORMETA(x, "adaptive.dec.meta.pfor", dm.encodingMeta.pforMeta, 0);
+        /* the union behind a DECODE is not a documented output */
+        OBS_PFORMETA_DEC(x, "adaptive.dec.meta.pfor", dm, varintAdaptiveMeta,
+                         encodingMeta.pforMeta.);
     }
     varintAdaptiveMeta rm;
     PREFILL(x, rm);
@@ -1304,6 +1360,9 @@ static int obs_compare2(vf_report *rep, const tgt *t, const obs *a,
                            paintdesc);
         }
         if (!p->copy) {
+            if (p->unw && q->unw) {
+                continue; /* not a documented output, written by neither */
+            }
             if (p->v != q->v) {
                 return vf_fail(rep, site, "value",
                                "%s: %s = %llu (0x%llx) %s, "
